@@ -163,6 +163,10 @@ pub struct E2Scn {
     /// through the event handler, synchronously, from inside watch() - i.e. on the thread of the fs worker
     #[serde(default)]
     pub poll_scan_errors: Vec<u8>,
+    /// Watchexec starts with the default filterer (everything passes); the scenario's filterer - with its verdicts -
+    /// is only installed by the first `ReplaceFilterer`
+    #[serde(default)]
+    pub default_filterer_first: bool,
 }
 
 impl Default for E2Scn {
@@ -193,6 +197,7 @@ impl Default for E2Scn {
             watch_slow: vec![],
             flip_ids: vec![],
             poll_scan_errors: vec![],
+            default_filterer_first: false,
         }
     }
 }
@@ -785,7 +790,9 @@ async fn e2_root(scn: E2Scn) {
     config.event_channel_size = scn.event_cap as usize;
     config.error_channel_size = scn.error_cap as usize;
     config.throttle(Duration::from_millis(scn.throttle));
-    config.filterer(SimFilterer { gen: 0 });
+    if !scn.default_filterer_first {
+        config.filterer(SimFilterer { gen: 0 });
+    }
     install_action_handler(&config, 0);
     install_error_handler(&config, 0);
     if let Some(ms) = scn.init_poll {
